@@ -82,6 +82,7 @@ def run_unit(target, cfg, tier='quick', findings=()):
     def run(ctx):
         h = H(ctx)
         ctx.h = h
+        ctx.prefer_cvc5 = getattr(contract, 'solver', 'z3') == 'cvc5'
         args, kwargs = contract.inputs(h, cfg)
         ip = Interp(ctx, hooks=hooks, loops=loops)
         ctx.ip = ip
@@ -99,7 +100,8 @@ def run_unit(target, cfg, tier='quick', findings=()):
 
     try:
         paths = explore(run, max_paths=contract.path_budget,
-                        time_budget=getattr(contract, 'time_budget', 600))
+                        time_budget=getattr(contract, 'time_budget', 600),
+                        feas_timeout_ms=getattr(contract, 'feas_timeout_ms', 10000))
     except Exception:
         res['errors'].append(traceback.format_exc())
         res['wall_s'] = time.time() - t0
